@@ -42,6 +42,7 @@ typedef long long ll;
 
 // heap observations (filled by the driver's main, see alloc_guard.h)
 static long long g_heap_live = 0;
+static long long g_heap_ov0 = 0;
 static volatile long long* g_heap_overruns_ptr = NULL;
 
 // ---------------------------------------------------------------- quantiser
